@@ -110,6 +110,13 @@ typedef struct {
     VmString **intern_table;
     uint32_t intern_count;
     uint32_t intern_capacity;
+    /* vm_release work list: children of an object that is being freed are released after it,
+     * from this list, instead of by recursion (a value nested 100000 deep must not need
+     * 100000 C stack frames to be dropped) */
+    NanoValue *release_pending;
+    uint32_t release_pending_count;
+    uint32_t release_pending_capacity;
+    bool releasing;
 } VmHeap;
 
 #ifdef NANOLANG_VERIF
